@@ -6,10 +6,10 @@ from harness.common import fwd, pseudo, VOID, AXES, rot_from_rotvec
 from harness import pipeline as PL, solver as S
 
 SPEC = {
-    "gen": ["Rotations", "GetHkl", "SolverLeaf", "UtilLeaf"],
+    "gen": ["Rotations", "GetHkl", "SolverLeaf", "UtilLeaf", "SolverDispatch"],
     "modules": ["DiffcalcProofs.Props.C01", "DiffcalcProofs.Props.C01Sample", "DiffcalcProofs.Props.C01Detector", "DiffcalcProofs.Props.C01Assembly",
                 "DiffcalcProofs.Props.C01Assembly2", "DiffcalcProofs.Props.C01Bridge", "DiffcalcProofs.Props.TieSolver"],
-    "theorems": {"DiffcalcProofs.Props.TieSolver": ["TieSolver.phiAndQaz_generated", "TieSolver.chiAndQaz_generated", "TieSolver.qazValue_generated", "TieSolver.small_generated", "TieSolver.bound_generated", "TieSolver.sign_generated", "TieSolver.sampleFromChiEta_generated", "TieSolver.detFromQaz_generated", "TieSolver.anglesEquivalent_generated", "TieSolver.refConChiMu_generated", "TieSolver.refConMuPhi_generated", "TieSolver.refConEtaPhi_generated", "TieSolver.refConChiPhi_generated", "TieSolver.sampleConPhi_generated", "TieSolver.sampleConChi_generated", "TieSolver.sampleConEta_generated", "TieSolver.sampleConMuChi_generated", "TieSolver.sampleConEtaPhi_generated", "TieSolver.sampleConEtaChi_generated", "TieSolver.sampleConMuPhi_generated", "TieSolver.sampleConMuEta_generated", "TieSolver.detFromDelta_generated", "TieSolver.detFromNu_generated", "TieSolver.sampleConMu_generated", "TieSolver.refConMuEta_generated", "TieSolver.refConChiEta_generated", "TieSolver.sampleConChiPhi_generated", "TieSolver.sampleConOmegaBisect_generated", "TieSolver.sampleConMuBisect_generated", "TieSolver.sampleConEtaBisect_generated"],
+    "theorems": {"DiffcalcProofs.Props.TieSolver": ["TieSolver.phiAndQaz_generated", "TieSolver.chiAndQaz_generated", "TieSolver.qazValue_generated", "TieSolver.small_generated", "TieSolver.bound_generated", "TieSolver.sign_generated", "TieSolver.sampleFromChiEta_generated", "TieSolver.detFromQaz_generated", "TieSolver.anglesEquivalent_generated", "TieSolver.refConChiMu_generated", "TieSolver.refConMuPhi_generated", "TieSolver.refConEtaPhi_generated", "TieSolver.refConChiPhi_generated", "TieSolver.sampleConPhi_generated", "TieSolver.sampleConChi_generated", "TieSolver.sampleConEta_generated", "TieSolver.sampleConMuChi_generated", "TieSolver.sampleConEtaPhi_generated", "TieSolver.sampleConEtaChi_generated", "TieSolver.sampleConMuPhi_generated", "TieSolver.sampleConMuEta_generated", "TieSolver.detFromDelta_generated", "TieSolver.detFromNu_generated", "TieSolver.sampleConMu_generated", "TieSolver.refConMuEta_generated", "TieSolver.refConChiEta_generated", "TieSolver.sampleConChiPhi_generated", "TieSolver.sampleConOmegaBisect_generated", "TieSolver.sampleConMuBisect_generated", "TieSolver.sampleConEtaBisect_generated", "TieSolver.twoSampleDetector_generated", "TieSolver.twoSampleReference_generated"],
         "DiffcalcProofs.Props.C01": [
         "C01.getPosition_guard", "C01.getPosition_pairs_virtualAngles", "C01.guard_forward_model", "C01.composition",
         "C01.detFromQaz_sound", "C01.threeSample_detector_sound", "C01.twoSampleAndReference_detector_sound", "C01.bound_clips_in_band"],
